@@ -651,7 +651,7 @@ class Builder:
     def all_file(self, nsh, ntsh):
         pp, cfg = self.pp, self.cfg
         q, qall = cfg["q"], cfg["qall"]
-        imp = "From HS Require Import Base PyVal FS Ops Spec Sched Lin MenuLib Menu%s Menu%sT" % (pp, pp)
+        imp = "From HS Require Import Base PyVal FS Ops Spec Sched Lin Bracket SchedCV MenuLib MenuCV Menu%s Menu%sT" % (pp, pp)
         imp += "".join(" M%s_%02d" % (pp, k) for k in range(nsh))
         imp += "".join(" M%sT_%02d" % (pp, k) for k in range(ntsh)) + ".\n"
         t = [self.header("M%sAll.v -- from the shard booleans to statements about every schedule" % pp), imp]
@@ -728,6 +728,30 @@ class Builder:
                      "  destruct (refutes_sound _ _ H) as [w0 [c [Hw [Hex [Hst Hf]]]]].\n"
                      "  exists w0, sch, c. split; [exact Hw|]. split; [exact Hex|]. split; [exact Hst | exact Hf].\nQed.\n"
                      % (nm, pp, known, known, known))
+        # transfer to the faithful condition-variable semantics (SchedCV.v, MenuCV.v)
+        cvh = ("forall w0, start_world s = Some w0 ->\n"
+               "    forall C, cvreachable (map api (sc_calls s)) false w0 C ->\n"
+               "              cvstuck (map api (sc_calls s)) false C ->\n")
+        for (nm, lst, known) in (("pairs", "scenarios" + pp, "known" + pp), ("triples", "triples" + pp, "knownT" + pp)):
+            t.append("Theorem lin_%s%s_cv : forall s, In s %s -> ~ In s %s ->\n    %s"
+                     "    lin_ok w0 (sc_calls s) (fst C) = true /\\ stored_retrievable (sc_calls s) (fst C) = true.\n"
+                     "Proof.\n  intros s Hs Hk w0 Hw.\n"
+                     "  exact (cv_transfer s w0\n"
+                     "           (fun c => lin_ok w0 (sc_calls s) c = true /\\ stored_retrievable (sc_calls s) c = true) Hw\n"
+                     "           (fun sched c => lin_%s%s s Hs Hk w0 sched c Hw)).\nQed.\n"
+                     % (nm, pp, lst, known, cvh, nm, pp))
+            if q == "reader_ok":
+                t.append("Theorem readers_%s%s_cv : forall s, In s %s -> ~ In s %s ->\n    %s"
+                         "    forall i p f, nth_error (sc_calls s) i = Some (CRetrMeta p f) ->\n"
+                         "      (exists v n, thread_result (map api (sc_calls s)) (fst C) i = Some (Val (VBytes (CData v n n)))) \\/\n"
+                         "      thread_result (map api (sc_calls s)) (fst C) i = Some (Exn EValueError).\n"
+                         "Proof.\n  intros s Hs Hk w0 Hw.\n"
+                         "  exact (cv_transfer s w0\n"
+                         "           (fun c => forall i p f, nth_error (sc_calls s) i = Some (CRetrMeta p f) ->\n"
+                         "              (exists v n, thread_result (map api (sc_calls s)) c i = Some (Val (VBytes (CData v n n)))) \\/\n"
+                         "              thread_result (map api (sc_calls s)) c i = Some (Exn EValueError)) Hw\n"
+                         "           (fun sched c => readers_%s%s s Hs Hk w0 sched c Hw)).\nQed.\n"
+                         % (nm, pp, lst, known, cvh, nm, pp))
         t.append("Theorem menu%s_is_spec : scenarios%s = scenarios%s_spec.\nProof. exact scenarios%s_is_spec. Qed.\n" % (pp, pp, pp, pp))
         t.append("Theorem every_start_world_defined%s : forall s, In s scenarios%s -> exists w0, start_world s = Some w0.\n"
                  "Proof. exact (start_defined_all _ start_defined%s). Qed.\n" % (pp, pp, pp))
@@ -803,7 +827,7 @@ class Builder:
         pp, cfg = self.pp, self.cfg
         nsh = len(set(s["shard"] for s in scen))
         P = "C" + pp
-        imp = "From HS Require Import Base PyVal FS Ops Spec Sched Lin MenuLib Menu%s Menu%sT M%sAll%s.\n" % (
+        imp = "From HS Require Import Base PyVal FS Ops Spec Sched Lin Bracket SchedCV MenuLib MenuCV Menu%s Menu%sT M%sAll%s.\n" % (
             pp, pp, pp, (" LinNF M%sR" % pp) if (self.r_pairs or self.r_triples) else "")
         nk = sum(1 for s in scen if s["verdict"] == "FAIL")
         nkt = sum(1 for s in keep if s["verdict"] == "FAIL")
@@ -887,6 +911,26 @@ class Builder:
                          "      (exists v n, thread_result (map api (sc_calls s)) c i = Some (Val (VBytes (CData v n n)))) \\/\n"
                          "      thread_result (map api (sc_calls s)) c i = Some (Exn EValueError)" % (pp, pp, concl, rd),
                          "readers_triples" + pp, "the reader clause on the triples"))
+        t.append("(* ---------- under the faithful condition-variable semantics (SchedCV.v) ---------- *)\n")
+        cvh = ("forall w0, start_world s = Some w0 ->\n"
+               "    forall C, cvreachable (map api (sc_calls s)) false w0 C ->\n"
+               "              cvstuck (map api (sc_calls s)) false C ->\n")
+        for (nm, lst, known) in (("pairs", "scenarios" + pp, "known" + pp), ("triples", "triples" + pp, "knownT" + pp)):
+            t.append(thm("lin_%s_cv" % nm,
+                         "forall s, In s %s -> ~ In s %s ->\n    %s"
+                         "    lin_ok w0 (sc_calls s) (fst C) = true /\\ stored_retrievable (sc_calls s) (fst C) = true" % (lst, known, cvh),
+                         "lin_%s%s_cv" % (nm, pp),
+                         "every final configuration of the semantics with real condition variables (threads sleep, notify\n"
+                         "   wakes one arbitrary sleeper, which re-tests; no faults) is linearizable: C%s_lin_%s composed with\n"
+                         "   SchedCV.cv_final_is_sched_final and Bracket.run_history_empty_ok (MenuCV.cv_transfer)" % (pp, nm)))
+            if cfg["q"] == "reader_ok":
+                t.append(thm("reader_%s_cv" % nm,
+                             "forall s, In s %s -> ~ In s %s ->\n    %s"
+                             "    forall i p f, nth_error (sc_calls s) i = Some (CRetrMeta p f) ->\n"
+                             "      (exists v n, thread_result (map api (sc_calls s)) (fst C) i = Some (Val (VBytes (CData v n n)))) \\/\n"
+                             "      thread_result (map api (sc_calls s)) (fst C) i = Some (Exn EValueError)" % (lst, known, cvh),
+                             "readers_%s%s_cv" % (nm, pp),
+                             "the reader clause under the same semantics"))
         if self.r_pairs or self.r_triples:
             t.append("(* ---------- family R read as the property words it ---------- *)\n")
             nfc = ("forall w0 sched c, start_world s = Some w0 ->\n"
